@@ -286,7 +286,9 @@ func vcRunC10(t *vcTrial) {
 					}
 				}
 			}(vc.peer)
-			junk := make([]byte, r.rng(64<<10, 1<<20))
+			// large payloads: Write copies them into the output buffer first, which keeps the writer
+			// between its IsActive check and its sendmsg for milliseconds
+			junk := make([]byte, r.rng(4<<20, 32<<20))
 			for i := range junk {
 				junk[i] = 0xAB
 			}
@@ -294,17 +296,21 @@ func vcRunC10(t *vcTrial) {
 			go func() {
 				defer close(wdone)
 				defer func() { recover() }() // a writer racing Close may hit D22; not this step's subject
-				for i := 0; i < 400; i++ {
+				for i := 0; i < 40; i++ {
 					if _, err := vc.conn.Write(junk); err != nil {
 						return
 					}
 				}
 			}()
-			time.Sleep(time.Duration(r.intn(3000)) * time.Microsecond)
-			vc.conn.Close()
+			time.Sleep(time.Duration(r.intn(6000)) * time.Microsecond)
+			// the closer runs on its own goroutine (Close waits for the writer to leave the flushing
+			// section); meanwhile new connections are opened, so that a descriptor closed too early is
+			// re-issued while A's writer is still on its way to sendmsg
+			cdone := make(chan struct{})
+			go func() { defer close(cdone); vc.conn.Close() }()
 			vc.closed = true
 			pool.dead = append(pool.dead, vc)
-			for n := 0; n < 2 && len(pool.live) < 8; n++ {
+			for n := 0; n < 3 && len(pool.live) < 8; n++ {
 				nv := pool.open()
 				if nv == nil {
 					return
@@ -322,6 +328,19 @@ func vcRunC10(t *vcTrial) {
 			case <-time.After(10 * time.Second):
 				t.Inconclusive("writer on a closed connection did not stop within 10s")
 				return
+			}
+			select {
+			case <-cdone:
+			case <-time.After(10 * time.Second):
+				t.Inconclusive("Close under write did not return within 10s")
+				return
+			}
+			// anything that was injected while the writer wound down shows up now
+			for _, l := range pool.live {
+				if err := l.echo(r.rng(1, 500), 5*time.Second); err != nil {
+					pool.judgeEcho(l, err, append(hist, fmt.Sprintf("close-under-write#%d", vc.id)))
+					return
+				}
 			}
 			closesUnderWrite++
 			hist = append(hist, fmt.Sprintf("close-under-write#%d", vc.id))
